@@ -1,24 +1,27 @@
 import BsVerif.Props.C05
 open BsVerif.Unwind
-#print axioms C05_backtrace_is_stack_partial
-#print axioms C05_backtrace_is_stack_counterexample
-#print axioms C05_backtrace_is_prefix
+#print axioms C05_backtrace_is_stack
 #print axioms C05_no_unwind_info
 #print axioms C05_depth_bound
+#print axioms C05_frame_select_ip
+#print axioms C05_frame_select
+#print axioms C05_frame_select_chain
 #print axioms C05_frame_select_sp
 #print axioms C05_frame_select_zero
-#print axioms C05_frame_select_counterexample
 #print axioms C05_return_address
-#print axioms C05_frame_select_ip_partial
+#print axioms C05_frame_info
 #print axioms C05_frame_info_innermost
-#print axioms C05_frame_info_counterexample
 #print axioms ctxNew_cfa
 #print axioms Chain_head
 #print axioms loop_spec
-#print axioms loop_prefix
 #print axioms unwindLoop_length
-#print axioms applyRules_other
-#print axioms ctxNew_sp
-#print axioms restoreLoop_spec
+#print axioms applyRules_isSome
+#print axioms ctxNew_isSome
+#print axioms carried_isSome
+#print axioms restoreLoop_carried
+#print axioms updateFrom_carried
+#print axioms carried_chain
+#print axioms restoreLoop_chain
 #print axioms Ex.chainPlain
 #print axioms Ex.chainRec
+#print axioms Ex.chainFp
